@@ -71,8 +71,11 @@ ParseFmt(s) ==
 (* Attribute values.                                                       *)
 (***************************************************************************)
 LastSlash(p) == LastIndexOf(p, SLASH)
-Basename(p) == SubSeq(p, LastSlash(p) + 1, Len(p))
-Dirname(p) == IF LastSlash(p) = 0 THEN <<46>> ELSE SubSeq(p, 1, LastSlash(p) - 1)
+\* the last component and the part before it; the trailing slash of a starting point belongs to neither
+\* ("d/": last component d, nothing before it; "d/s/": s and d)
+Basename(p) == LET q == StripSlashes(p) IN SubSeq(q, LastSlash(q) + 1, Len(q))
+Dirname(p) == LET q == StripSlashes(p) IN
+              IF LastSlash(q) = 0 THEN <<46>> ELSE IF LastSlash(q) = 1 THEN <<SLASH>> ELSE SubSeq(q, 1, LastSlash(q) - 1)
 BelowStart(start, p) ==
   IF Len(p) = Len(start) THEN <<>>
   ELSE IF start[Len(start)] = SLASH THEN SubSeq(p, Len(start) + 1, Len(p))
@@ -107,10 +110,9 @@ DirDom(ctx, e, comp) ==
       followed == Follows(ctx.cfg, e.depth)
       c == comp.c
   IN
-  /\ (c \in {102, 104} => ~(e.depth = 0 /\ e.path[Len(e.path)] = SLASH /\ Len(e.path) > 1))
   /\ (c \in {102, 104} => e.path # <<SLASH>>)
-  \* with repeated slashes "the part before the last component" is not a definite string
-  /\ (c = 104 => ~\E i \in 1..(Len(e.path) - 1) : e.path[i] = SLASH /\ e.path[i + 1] = SLASH)
+  \* with repeated slashes "the last component" / "the part before it" are not definite strings
+  /\ (c \in {102, 104} => ~\E i \in 1..(Len(e.path) - 1) : e.path[i] = SLASH /\ e.path[i + 1] = SLASH)
   /\ (c = 89 => (nd.kind # "l" \/ (~followed /\ nd.target # 0)))
   /\ (c = 108 => (nd.kind # "l" \/ ~followed))
   \* %m: whether a mode below 0100 is padded to three digits is not said ("7" / "007")
